@@ -601,7 +601,7 @@ impl ZonedDateTime {
     pub fn hours_in_day_with_provider(
         &self,
         provider: &impl TimeZoneProvider,
-    ) -> TemporalResult<u8> {
+    ) -> TemporalResult<f64> {
         // 1-3. Is engine specific steps
         // 4. Let isoDateTime be GetISODateTimeFor(timeZone, zonedDateTime.[[EpochNanoseconds]]).
         let iso = self.tz.get_iso_datetime_for(&self.instant, provider)?;
@@ -615,10 +615,8 @@ impl ZonedDateTime {
         let tomorrow_ns = self.tz.get_start_of_day(&tomorrow, provider)?;
         // 9. Let diff be TimeDurationFromEpochNanosecondsDifference(tomorrowNs, todayNs).
         let diff = NormalizedTimeDuration::from_nanosecond_difference(tomorrow_ns.0, today_ns.0)?;
-        // NOTE: The below should be safe as today_ns and tomorrow_ns should be at most 25 hours.
-        // TODO: Tests for the below cast.
         // 10. Return 𝔽(TotalTimeDuration(diff, hour)).
-        Ok(diff.divide(60_000_000_000) as u8)
+        Ok(diff.total(Unit::Hour)?.as_inner())
     }
 }
 
